@@ -989,6 +989,16 @@ func foldBin(op string, a, b *Term) *Term {
 		return boolT((a.Name == b.Name) == (op == "=="))
 	}
 	if op == "==" || op == "!=" {
+		if b.Op == "nil" {
+			for a.Op == "call" && (a.Name == "errorsx.WithStack" || a.Name == "errors.WithStack") && len(a.Args) == 1 {
+				a = a.Args[0]
+			}
+		}
+		if a.Op == "nil" {
+			for b.Op == "call" && (b.Name == "errorsx.WithStack" || b.Name == "errors.WithStack") && len(b.Args) == 1 {
+				b = b.Args[0]
+			}
+		}
 		if a.Op == "nil" && b.Op == "nil" {
 			return boolT(op == "==")
 		}
